@@ -180,6 +180,14 @@ class BLOB(Element):
     set_message_class = one_parts.OneBLOB
     allowed_value_types = (values.BLOB,) + Element.allowed_value_types
 
+    def to_def_message(self):
+        # a definition announces the BLOB, the payload travels in updates only
+        return self.def_message_class(
+            name=self._definition.name,
+            value=None,
+            label=self._definition.label,
+        )
+
     def to_set_message(self):
         if self.value is None:
             return self.set_message_class(
